@@ -9,6 +9,7 @@ import (
 	"os"
 	"path/filepath"
 	"strings"
+	"time"
 
 	"github.com/thomasjungblut/go-sstables/sstables"
 )
@@ -34,7 +35,8 @@ type c09Case struct {
 	OptSwap  bool    `json:"opt_swap,omitempty"` // the two options in the other order
 	Stacked  bool    `json:"stacked,omitempty"`  // read through a SuperSSTableReader over an older table holding other values for the same keys
 	Vals     []int   `json:"vals"`               // replacement values; -1 = flip lowest bit, -2 = flip highest bit
-	Big      bool    `json:"big,omitempty"`      // thousands of records; a sample of damages, most of them in the last part of the file
+	cleanMT  time.Time
+	Big      bool `json:"big,omitempty"` // thousands of records; a sample of damages, most of them in the last part of the file
 	// observations
 	Data   []byte   `json:"data"`
 	Index  []byte   `json:"index"`
@@ -45,6 +47,10 @@ type c09Case struct {
 
 func (c *c09Case) observe(dir string, data []byte, ob *dmgObs) {
 	must(os.WriteFile(filepath.Join(dir, sstables.DataFileName), data, 0644))
+	if !c.cleanMT.IsZero() {
+		// silent damage: the file keeps the modification time it had when this process opened it undamaged
+		must(os.Chtimes(filepath.Join(dir, sstables.DataFileName), c.cleanMT, c.cleanMT))
+	}
 	opts := []sstables.ReadOption{sstables.ReadBasePath(dir)}
 	if c.Loader != "" && c.Loader != "slice" {
 		opts = append(opts, sstables.ReadIndexLoader(loaderFor(c.Loader, 4096)))
@@ -134,6 +140,14 @@ func (c *c09Case) Exec() {
 	}
 	c.Data, c.Index = readFileOr(dir, sstables.DataFileName), readFileOr(dir, sstables.IndexFileName)
 	c.IdxPay = indexEntries(dir)
+	// the process has opened the table with the default options while it was still undamaged: nothing it learned then
+	// may vouch for the file later
+	if st, err := os.Stat(filepath.Join(dir, sstables.DataFileName)); err == nil {
+		if r0, err := sstables.NewSSTableReader(sstables.ReadBasePath(dir)); err == nil {
+			_ = r0.Close()
+			c.cleanMT = st.ModTime()
+		}
+	}
 	if c.Big {
 		c.execBig(dir)
 		return
